@@ -49,6 +49,43 @@ def key_of(p):
 def run_reader_check(pid, tier, mcs, mult, known_match=None, rbufs=RBUFS, chunks=CHUNKS, tail=3,
                      floors=None, assumptions=(), level="model_checking", max_progs=None):
     """mcs: list of (module, cfg). Returns exit code."""
+    violations, cov, wall = reader_run(pid, tier, mcs, mult, known_match, rbufs, chunks, tail, max_progs)
+    core.write_evidence(pid, tier, level, cov, wall, len(violations), list(assumptions))
+    for v in violations:
+        print("VIOLATION property=%s replay=%s" % (pid, v), flush=True)
+    return 1 if violations else 0
+
+
+def garbage_programs(pid, seed, count):
+    """Raw byte strings as frame streams (C07): the driver sends them verbatim; the model goes `wild` at the first
+    unspecified/violating frame, so only the monitors (panic, hang, allocation) and fail-stop after an error decide."""
+    rnd = random.Random(seed * 53 + 11)
+    out = []
+    for i in range(count):
+        n = rnd.choice([1, 2, 3, 7, 14, 40, 300])
+        raw = bytes(rnd.randrange(256) for _ in range(n))
+        out.append(dict(id="%s-g-%d" % (pid, i), role=rnd.choice(["server", "client"]), pmce=rnd.random() < 0.5, limit=rnd.choice([0, 0, 10]),
+                        rbuf=rnd.choice(RBUFS), hmode="default", herrAt=0, frames=[], raw=raw.hex(), cut=None,
+                        chunk=rnd.choice(["whole", "byte", "rand"]), reads=[dict(op="RM", k=0)] * 4, seed=rnd.randrange(1, 1 << 30), tail=3))
+    return out
+
+
+def c07_frames(tier):
+    """Frame-level part of C07: the C04 header alphabet and the C05 truncation space re-run for their monitors
+    (Panic / Hang / AllocExcess events are unexplainable), plus raw garbage streams."""
+    q = tier == "quick"
+    v1, cov1, w1 = reader_run("C07", tier, [("MC_C04.tla", "MC_C04_quick.cfg" if q else "MC_C04_thorough.cfg")], 1, None, RBUFS, CHUNKS, 3,
+                              2500 if q else None, extra=lambda seed: garbage_programs("C07", seed, 1500 if q else 40000), name="C07-frames-a")
+    v2, cov2, w2 = reader_run("C07", tier, [("MC_C05.tla", "MC_C05_quick.cfg" if q else "MC_C05_thorough.cfg")], 1, None, [1, 125, 256, 4096], CHUNKS, 3,
+                              1500 if q else None, name="C07-frames-b")
+    cov = dict(cov1)
+    for k in ("states", "transitions", "traces_validated_against_impl", "trace_events", "evaluations", "distinct_nontrivial"):
+        cov[k] = cov1[k] + cov2[k]
+    cov["mc_configs"] = cov1["mc_configs"] + cov2["mc_configs"]
+    return v1 + v2, cov
+
+
+def reader_run(pid, tier, mcs, mult, known_match=None, rbufs=RBUFS, chunks=CHUNKS, tail=3, max_progs=None, extra=None, name=None):
     t0 = time.time()
     seed = core.seed()
     core.build_driver()
@@ -66,8 +103,10 @@ def run_reader_check(pid, tier, mcs, mult, known_match=None, rbufs=RBUFS, chunks
         rnd = random.Random(seed)
         progs = rnd.sample(progs, max_progs)
     conc = concretise(progs, pid, tier, seed, mult, rbufs, chunks, tail)
+    if extra:
+        conc += extra(seed)
     byid = {p["id"]: p for p in conc}
-    name = "%s-%s" % (pid, tier)
+    name = name or "%s-%s" % (pid, tier)
     core.rundir(name)
     files = core.drive("reader", conc, name)
     res = core.validate("WSReaderTrace.tla", "WSReaderTrace.cfg", files, name)
@@ -109,7 +148,4 @@ def run_reader_check(pid, tier, mcs, mult, known_match=None, rbufs=RBUFS, chunks
                     "%d time(s) (buffer size, chunking, payload seed, cut offset) and executed on the real library" % mult,
                samples=samples, exhaustive=(max_progs is None), mc_configs=["%s/%s" % m for m in mcs],
                known_findings=len(seen))
-    core.write_evidence(pid, tier, level, cov, time.time() - t0, len(violations), list(assumptions))
-    for v in violations:
-        print("VIOLATION property=%s replay=%s" % (pid, v), flush=True)
-    return 1 if violations else 0
+    return violations, cov, time.time() - t0
